@@ -424,6 +424,14 @@ bool Executor::native(State &s, CallBase *cb, Function *f, std::vector<Val> &a, 
     if (n == "fabs") { ret = fpUnary("fabs", a[0]); return true; }
     if (n == "nearbyint" || n == "rint") { ret = fpUnary("rint", a[0]); return true; }
     if (n == "fmod") { bool ok; ret = binop(s, Instruction::FRem, a[0], a[1], cb, ok); return true; }
+    // std::random_device (libstdc++.so): the OS entropy source.  Modelled as an inert object whose draws are a fixed
+    // documented sequence; what matters to C12 is *that* it is consulted (recorded in the natives list).
+    if (n.startswith("_ZNSt13random_device")) {
+        nativeUse[n.str()]++;
+        if (n.contains("_M_getval")) { static uint32_t ctr = 0; ret = mkInt(32, 0x9e3779b9u + 0x7f4a7c15u * (ctr++)); return true; }
+        if (n.contains("_M_getentropy")) { ret = mkF64(32.0); return true; }
+        return true;   // _M_init / _M_fini / _M_init_pretr1
+    }
     if (n == "time") {
         // non-decreasing clock; concrete by default, the harness can override by defining its own time()
         uint64_t t = 1700000000ULL + (s.timeCtr++ / 4);
